@@ -18,6 +18,7 @@ Op alphabet (script of one task; `t`/`s` are script ids, `p`/`q` positions, `k` 
     ri t p                 asynkit.task_reinsert(task t, p)
     cp p k                 call_pos(p, cb, k)
     cs k                   loop.call_soon(cb, k)
+    cm t k                 loop.call_soon(task_t.set_name, "k<k>")  (a callback *bound to* task t, not its step)
     cr p t q               call_pos(p, asynkit.task_reinsert, task t, q)   (ValueError inside a callback)
     cr8 s / de s / st s    create_task / create_task_descend / create_task_start of script s
     fi t                   pocket = ready_find(task t)
@@ -289,6 +290,9 @@ class RealRunner:
         cb = handle._callback
         if cb == self._cb:
             return f"c{handle._args[0]}"
+        owner = getattr(cb, "__self__", None)
+        if owner in self.sid_of and getattr(cb, "__name__", "") == "set_name":
+            return f"m{self.sid_of[owner]}.{handle._args[0][1:]}"
         if cb is asynkit.task_reinsert:
             return f"r{self.sid_of.get(handle._args[0], '?')}.{handle._args[1]}"
         return "x"
@@ -407,6 +411,8 @@ class RealRunner:
             if lab.startswith("r"):
                 res = "ok" if runner.cb_exc is None else type(runner.cb_exc).__name__[0]
                 runner.log.append(f"{lab}={res}/{len(loop._ready)}")
+            elif lab.startswith("m") and runner.cb_exc is None:
+                runner.log.append(f"{lab}/{len(loop._ready)}")
             elif runner.cb_exc is not None:
                 runner.log.append(f"!{lab}:{type(runner.cb_exc).__name__}")
 
@@ -556,6 +562,13 @@ class RealRunner:
         if o == "cp":
             ext.call_pos(op[1], self._cb, op[2])
             return "ok"
+        if o == "cm":
+            # a plain callback that is a bound method of the task: not the task's step
+            if op[1] not in self.tasks:
+                return "nop"
+            self.tags.add(f"cm-target-{self._state(op[1])}")
+            loop.call_soon(self.tasks[op[1]].set_name, f"k{op[2]}")
+            return "ok"
         if o == "cs":
             loop.call_soon(self._cb, op[1])
             return "ok"
@@ -650,6 +663,8 @@ class RefSched:
             return f"t{h[1]}"
         if h[0] == "c":
             return f"c{h[1]}"
+        if h[0] == "m":
+            return f"m{h[1]}.{h[2]}"
         return f"r{h[1]}.{h[2]}"
 
     def new_handle(self, *a):
@@ -698,6 +713,8 @@ class RefSched:
             h = self.q.pop(0)
             if h[0] == "c":
                 self.log.append(f"c{h[1]}/{len(self.q)}")
+            elif h[0] == "m":
+                self.log.append(f"m{h[1]}.{h[2]}/{len(self.q)}")
             elif h[0] == "r":
                 try:
                     self.reinsert(h[1], h[2])
@@ -777,6 +794,11 @@ class RefSched:
             return f"m1.{mid}", False
         if o == "cp":
             self.insert(op[1], self.new_handle("c", op[2]))
+            return "ok", False
+        if o == "cm":
+            if op[1] not in self.state:
+                return "nop", False
+            self.q.append(self.new_handle("m", op[1], op[2]))
             return "ok", False
         if o == "cs":
             self.q.append(self.new_handle("c", op[1]))
@@ -868,8 +890,10 @@ def gen_program(rng, flavour="c08", n_tasks=None, max_ops=8, long=False):
                 return ["si", pos()]
             if r < 0.75:
                 return ["cp", rng.choice([0, 0, 1, 2]), lab()]
-            if r < 0.82:
+            if r < 0.80:
                 return ["cs", lab()]
+            if r < 0.82:
+                return ["cm", t, lab()]
             if r < 0.90:
                 return ["sw", t, rng.choice([None, 0, 1, 2])]
             if r < 0.95:
@@ -885,8 +909,10 @@ def gen_program(rng, flavour="c08", n_tasks=None, max_ops=8, long=False):
             return ["ri", t, pos()]
         if r < 0.55:
             return ["cp", pos(), lab()]
-        if r < 0.60:
+        if r < 0.58:
             return ["cs", lab()]
+        if r < 0.61:
+            return ["cm", t, lab()]
         if r < 0.65:
             return ["cr", pos(), t, pos()]
         if r < 0.70:
@@ -965,6 +991,42 @@ def gen_contention(rng):
     init = [["t", 0]] + [["t", 2 + i] for i in range(len(others))]
     rng.shuffle(init)
     return {"tasks": tasks, "init": init, "locks": 1}
+
+
+def gen_bound(rng, flavour="c08"):
+    """plain callbacks that are *bound methods of a task* (`loop.call_soon(task.set_name, …)`) queued behind the
+    task's own step, or while the task is blocked: `task_switch` / `task_reinsert` / `ready_find` must pick the
+    task's step only, and moving the blocked task must still raise ValueError."""
+    specs = PRI_SPECS if flavour == "c10" else ZERO_SPECS
+    blocked = rng.random() < 0.5
+    k = [500]
+
+    def lab():
+        k[0] += 1
+        return k[0]
+    target = [["bl"], ["cs", lab()]] if blocked else [["sleep0"], ["cs", lab()], ["sleep0"]]
+    mover = []
+    if rng.random() < 0.5:
+        mover.append(["sleep0"])                     # let the target start (and block / re-queue itself)
+    for _ in range(rng.randint(1, 2)):
+        mover.append(["cm", 1, lab()])
+        if rng.random() < 0.5:
+            mover.append(["cs", lab()])
+    move = rng.choice([["sw", 1, None], ["sw", 1, 1], ["ri", 1, 0], ["ri", 1, rng.randint(1, 4)], ["me", 1], ["fi", 1],
+                       ["cr", 0, 1, 0]])
+    mover += [move, ["it"]]
+    if move[0] == "fi":
+        mover.append(["rmi"])
+    mover += [["wk", 1], ["sleep0"]]
+    others = [{"kind": rng.choice(["prio", "plain"]), "pri": rng.choice(specs),
+               "ops": [rng.choice([["sleep0"], ["cs", lab()], ["si", rng.randint(0, 2)]]) for _ in range(rng.randint(1, 3))]}
+              for _ in range(rng.randint(0, 2))]
+    tasks = [{"kind": rng.choice(["prio", "plain"]), "pri": rng.choice(specs), "ops": mover},
+             {"kind": rng.choice(["prio", "plain"]), "pri": rng.choice(specs), "ops": target}] + others
+    init = [["t", 1], ["t", 0]] + [["t", 2 + i] for i in range(len(others))]
+    if rng.random() < 0.5:
+        init[0], init[1] = init[1], init[0]
+    return {"tasks": tasks, "init": init, "locks": 0}
 
 
 def gen_chain(rng):
